@@ -231,14 +231,14 @@ def _parts(stmts, v):
 
 
 def _load(stmts, v, mine):
-    """-> metamodel (may raise a documented exception)"""
+    """-> (metamodel, order in which the loader saw the statements); may raise a documented exception"""
     parts = _parts(stmts, v)
     route = v['route']
     if route == 'input':
         l = _x.ModelLoader()
         for p in parts:
             l.input(G.text_of(p))
-        return l.build_metamodel()
+        return l.build_metamodel(), v['order']
     d = tempfile.mkdtemp(dir=_tmp)
     try:
         if route == 'files':
@@ -248,7 +248,7 @@ def _load(stmts, v, mine):
                 with open(fn, 'w') as f:
                     f.write(G.text_of(p))
                 names.append(fn)
-            return _x.load_metamodel(names if len(names) > 1 else names[0])
+            return _x.load_metamodel(names if len(names) > 1 else names[0]), v['order']
         l = _bp.ModelLoader(load_globals=False)
         decoy = "INSERT INTO %s VALUES (1);\n" % (sorted(mine)[0] if mine else 'KA')   # wrong suffix: must not be read
         if route == 'bp-file':
@@ -278,7 +278,21 @@ def _load(stmts, v, mine):
             l.filename_input(fn)
         else:
             raise ValueError(route)
-        return l.build_metamodel()
+        order = v['order']
+        if route == 'bp-dirwide':
+            # the directory walk order of sibling files is the operating system's: read it off the loader
+            seen = []
+            for st in l.statements:
+                fn = os.path.basename(st.filename or '')
+                if fn.startswith('p') and fn.endswith('.xtuml') and os.path.dirname(st.filename).startswith(d):
+                    k = int(fn[1:-6])
+                    if k not in seen:
+                        seen.append(k)
+            starts = [sum(v['parts'][:k]) for k in range(len(v['parts']))]
+            order = [i for k in seen for i in v['order'][starts[k]:starts[k] + v['parts'][k]]]
+            if sorted(order) != sorted(v['order']):
+                order = v['order']
+        return l.build_metamodel(), order
     finally:
         shutil.rmtree(d, ignore_errors=True)
 
@@ -620,7 +634,8 @@ def run_impl(case):
         stats['route_' + v['route']] = stats.get('route_' + v['route'], 0) + 1
         bp = v['route'].startswith('bp-')
         try:
-            m = _load(stmts, v, mine)
+            m, seen_order = _load(stmts, v, mine)
+            v = dict(v, order=seen_order)
             dump = _dump(m, mine if bp else None)
         except _DOC as e:
             m = None
@@ -659,7 +674,7 @@ def run_impl(case):
         if guard is None:
             _check_api('api', stmts, raw, order, d2, outcomes, expected, fail)
         # clone: load in the original order, clone every instance into an empty metamodel with the same schema
-        m1 = _load(stmts, {'order': list(range(len(stmts))), 'parts': [len(stmts)], 'route': 'input'}, mine)
+        m1, _ = _load(stmts, {'order': list(range(len(stmts))), 'parts': [len(stmts)], 'route': 'input'}, mine)
         ids = _ids_by_kind(stmts, range(len(stmts)))
         inst_of = {}
         for kind, lst in ids.items():
